@@ -132,8 +132,14 @@ func (f *formatter) WriteDescription(s string) *formatter {
 		return f
 	}
 
+	if !isBlockStringSafe(s) {
+		// a block string would not give this text back: use a quoted string
+		f.WriteString((&ast.Value{Kind: ast.StringValue, Raw: s}).String()).WriteNewline()
+		return f
+	}
+
 	f.WriteString(`"""`)
-	ss := strings.Split(s, "\n")
+	ss := strings.Split(strings.ReplaceAll(s, `"""`, `\"""`), "\n")
 	f.WriteNewline()
 	for _, s := range ss {
 		f.WriteString(s).WriteNewline()
@@ -142,6 +148,30 @@ func (f *formatter) WriteDescription(s string) *formatter {
 	f.WriteString(`"""`).WriteNewline()
 
 	return f
+}
+
+// isBlockStringSafe reports whether s survives being written as an indented
+// block string: block strings drop blank first and last lines and the
+// indentation common to all lines, turn CR into LF and cannot hold control
+// characters.
+func isBlockStringSafe(s string) bool {
+	lines := strings.Split(s, "\n")
+	isBlank := func(l string) bool { return strings.Trim(l, " \t") == "" }
+	if isBlank(lines[0]) || isBlank(lines[len(lines)-1]) {
+		return false
+	}
+	flushLeft := false
+	for _, l := range lines {
+		for _, r := range l {
+			if r < 0x20 && r != '\t' {
+				return false
+			}
+		}
+		if !isBlank(l) && l[0] != ' ' && l[0] != '\t' {
+			flushLeft = true
+		}
+	}
+	return flushLeft
 }
 
 func (f *formatter) IncrementIndent() {
